@@ -524,16 +524,16 @@ End Recover.
 
 (* ================================================================= the correspondence checks are sound *)
 (* the staged expressions the correspondence evaluates are the model *)
-Lemma k2t_env_ok a e i Om om E :
-  let r := env_R (stages_R [a; e; i; Om; om; E] k2t_stages) in
-  let m := kepler2trs (Q2R GM_Q) (Kep a e i Om om E) in
+Lemma k2t_env_ok g a e i Om om E :
+  let r := env_R (stages_R [a; e; i; Om; om; E] (k2t_stages g)) in
+  let m := kepler2trs (Q2R g) (Kep a e i Om om E) in
   eval_R r (v_ 39) = vx (fst m) /\ eval_R r (v_ 40) = vy (fst m) /\ eval_R r (v_ 41) = vz (fst m) /\
   eval_R r (v_ 42) = vx (snd m) /\ eval_R r (v_ 43) = vy (snd m) /\ eval_R r (v_ 44) = vz (snd m).
 Proof. cbv zeta. repeat split; reflexivity. Qed.
 
-Lemma t2k_env_ok x y z vx' vy' vz' :
-  let r := env_R (stages_R [x; y; z; vx'; vy'; vz'] t2k_stages) in
-  let m := trs2kepler (Q2R GM_Q) (V3 x y z) (V3 vx' vy' vz') in
+Lemma t2k_env_ok g x y z vx' vy' vz' :
+  let r := env_R (stages_R [x; y; z; vx'; vy'; vz'] (t2k_stages g)) in
+  let m := trs2kepler (Q2R g) (V3 x y z) (V3 vx' vy' vz') in
   eval_R r (v_ 15) = k_a m /\ eval_R r (v_ 21) = k_e m /\ eval_R r (v_ 17) = k_i m /\
   eval_R r (v_ 18) = k_Omega m /\ wrap_neg (eval_R r (v_ 25)) = k_omega m /\ eval_R r (v_ 22) = k_E m.
 Proof. cbv zeta. repeat split; reflexivity. Qed.
@@ -552,17 +552,17 @@ Proof. apply env_I_contains. apply stages_contains. apply env_dy_Forall2. Qed.
 Lemma verdict_0 b : verdict b = 0%Z -> b = true.
 Proof. destruct b; [reflexivity | discriminate]. Qed.
 
-Theorem check_k2t_sound_thm a e i Om om E px py pz qx qy qz :
-  check_k2t ([a; e; i; Om; om; E], [px; py; pz; qx; qy; qz]) = 0%Z ->
-  let m := kepler2trs (Q2R GM_Q) (Kep (dyR a) (dyR e) (dyR i) (dyR Om) (dyR om) (dyR E)) in
+Theorem check_k2t_sound_thm g a e i Om om E px py pz qx qy qz :
+  check_k2t_g g ([a; e; i; Om; om; E], [px; py; pz; qx; qy; qz]) = 0%Z ->
+  let m := kepler2trs (Q2R g) (Kep (dyR a) (dyR e) (dyR i) (dyR Om) (dyR om) (dyR E)) in
   let tp := Q2R (tol_of rel10 [px; py; pz]) in
   let tv := Q2R (tol_of rel10 [qx; qy; qz]) in
   Rabs (vx (fst m) - dyR px) <= tp /\ Rabs (vy (fst m) - dyR py) <= tp /\ Rabs (vz (fst m) - dyR pz) <= tp /\
   Rabs (vx (snd m) - dyR qx) <= tv /\ Rabs (vy (snd m) - dyR qy) <= tv /\ Rabs (vz (snd m) - dyR qz) <= tv.
 Proof.
   intros H. apply verdict_0 in H.
-  pose proof (staged_env_contains p128 [a; e; i; Om; om; E] k2t_stages) as C.
-  destruct (k2t_env_ok (dyR a) (dyR e) (dyR i) (dyR Om) (dyR om) (dyR E)) as [L1 [L2 [L3 [L4 [L5 L6]]]]].
+  pose proof (staged_env_contains p128 [a; e; i; Om; om; E] (k2t_stages g)) as C.
+  destruct (k2t_env_ok g (dyR a) (dyR e) (dyR i) (dyR Om) (dyR om) (dyR E)) as [L1 [L2 [L3 [L4 [L5 L6]]]]].
   cbv zeta in L1, L2, L3, L4, L5, L6 |- *.
   rewrite <- L1, <- L2, <- L3, <- L4, <- L5, <- L6.
   apply andb_prop in H. destruct H as [H Hv]. apply andb_prop in H. destruct H as [_ Hp].
@@ -584,9 +584,9 @@ Proof.
   rewrite RMicromega.Q2R_0 in H. exact H.
 Qed.
 
-Theorem check_t2k_sound_thm px py pz qx qy qz a e i Om om E :
-  check_t2k ([px; py; pz; qx; qy; qz], [a; e; i; Om; om; E]) = 0%Z ->
-  let m := trs2kepler (Q2R GM_Q) (V3 (dyR px) (dyR py) (dyR pz)) (V3 (dyR qx) (dyR qy) (dyR qz)) in
+Theorem check_t2k_sound_thm g px py pz qx qy qz a e i Om om E :
+  check_t2k_g g ([px; py; pz; qx; qy; qz], [a; e; i; Om; om; E]) = 0%Z ->
+  let m := trs2kepler (Q2R g) (V3 (dyR px) (dyR py) (dyR pz)) (V3 (dyR qx) (dyR qy) (dyR qz)) in
   Rabs (k_a m - dyR a) <= Q2R rel10 * Rabs (dyR a) + Q2R 0 /\
   Rabs (k_e m - dyR e) <= Q2R rel10 * Rabs (dyR e) + Q2R abs12 /\
   Rabs (k_i m - dyR i) <= Q2R tol_angle /\
@@ -596,8 +596,8 @@ Theorem check_t2k_sound_thm px py pz qx qy qz a e i Om om E :
   0 <= dyR i /\ 0 <= dyR om < 2 * PI.
 Proof.
   intros H. apply verdict_0 in H.
-  pose proof (staged_env_contains p128 [px; py; pz; qx; qy; qz] t2k_stages) as C.
-  destruct (t2k_env_ok (dyR px) (dyR py) (dyR pz) (dyR qx) (dyR qy) (dyR qz)) as [L1 [L2 [L3 [L4 [L5 L6]]]]].
+  pose proof (staged_env_contains p128 [px; py; pz; qx; qy; qz] (t2k_stages g)) as C.
+  destruct (t2k_env_ok g (dyR px) (dyR py) (dyR pz) (dyR qx) (dyR qy) (dyR qz)) as [L1 [L2 [L3 [L4 [L5 L6]]]]].
   cbv zeta in L1, L2, L3, L4, L5, L6 |- *.
   rewrite <- L1, <- L2, <- L3, <- L4, <- L5, <- L6.
   repeat match goal with
@@ -611,10 +611,10 @@ Proof.
       destruct (check_close_mod2pi_sound _ _ _ _ _ _ C X) as [n [_ Hn]]; exists n; exact Hn end.
   - match goal with X : check_close_mod2pi _ _ (v_ 25) _ _ = true |- _ =>
       destruct (check_close_mod2pi_sound _ _ _ _ _ _ C X) as [n [_ Hn]] end.
-    destruct (wrap_neg_mod (eval_R (env_R (stages_R [dyR px; dyR py; dyR pz; dyR qx; dyR qy; dyR qz] t2k_stages)) (v_ 25))) as [w Hw].
+    destruct (wrap_neg_mod (eval_R (env_R (stages_R [dyR px; dyR py; dyR pz; dyR qx; dyR qy; dyR qz] (t2k_stages g))) (v_ 25))) as [w Hw].
     exists (n - w)%Z. rewrite Hw, minus_IZR.
     match goal with |- Rabs ?t <= _ => replace t with
-      (eval_R (env_R (stages_R [dyR px; dyR py; dyR pz; dyR qx; dyR qy; dyR qz] t2k_stages)) (v_ 25) + IZR n * (2 * PI) - dyR om) by ring end.
+      (eval_R (env_R (stages_R [dyR px; dyR py; dyR pz; dyR qx; dyR qy; dyR qz] (t2k_stages g))) (v_ 25) + IZR n * (2 * PI) - dyR om) by ring end.
     exact Hn.
   - match goal with X : check_close_mod2pi _ _ (v_ 22) _ _ = true |- _ =>
       destruct (check_close_mod2pi_sound _ _ _ _ _ _ C X) as [n [_ Hn]]; exists n; exact Hn end.
@@ -655,13 +655,13 @@ Lemma anomalies_def k :
   mean_anomaly k = k_E k - k_e k * sin (k_E k) /\ true_anomaly k = true_anom (k_e k) (k_E k).
 Proof. split; reflexivity. Qed.
 
-Lemma model_exprs_ok_thm a e i Om om E x y z vx' vy' vz' :
-  (let r := env_R (stages_R [a; e; i; Om; om; E] k2t_stages) in
-   let m := kepler2trs (Q2R GM_Q) (Kep a e i Om om E) in
+Lemma model_exprs_ok_thm g a e i Om om E x y z vx' vy' vz' :
+  (let r := env_R (stages_R [a; e; i; Om; om; E] (k2t_stages g)) in
+   let m := kepler2trs (Q2R g) (Kep a e i Om om E) in
    eval_R r (v_ 39) = vx (fst m) /\ eval_R r (v_ 40) = vy (fst m) /\ eval_R r (v_ 41) = vz (fst m) /\
    eval_R r (v_ 42) = vx (snd m) /\ eval_R r (v_ 43) = vy (snd m) /\ eval_R r (v_ 44) = vz (snd m)) /\
-  (let r := env_R (stages_R [x; y; z; vx'; vy'; vz'] t2k_stages) in
-   let m := trs2kepler (Q2R GM_Q) (V3 x y z) (V3 vx' vy' vz') in
+  (let r := env_R (stages_R [x; y; z; vx'; vy'; vz'] (t2k_stages g)) in
+   let m := trs2kepler (Q2R g) (V3 x y z) (V3 vx' vy' vz') in
    eval_R r (v_ 15) = k_a m /\ eval_R r (v_ 21) = k_e m /\ eval_R r (v_ 17) = k_i m /\
    eval_R r (v_ 18) = k_Omega m /\ wrap_neg (eval_R r (v_ 25)) = k_omega m /\ eval_R r (v_ 22) = k_E m).
 Proof. split; [apply k2t_env_ok | apply t2k_env_ok]. Qed.
@@ -695,4 +695,14 @@ Proof.
     pose proof (atan2_bound (sqrt (1 - e * e) * sin E) (cos E - e)) as B2. fold (true_anom e E) in B2.
     lra.
   - apply atan2_bound.
+Qed.
+
+(* every GM of constant.txt (all sources) is positive: the hypothesis 0 < GM of the theorems holds under every use_source *)
+Lemma gm_sources_pos : forallb (fun gd => negb (Qle_bool (fst gd) 0)) GM_sources = true.
+Proof. vm_compute. reflexivity. Qed.
+Lemma gm_sources_pos_R g d : In (g, d) GM_sources -> 0 < Q2R g.
+Proof.
+  intros H. pose proof gm_sources_pos as F. rewrite forallb_forall in F. specialize (F _ H). simpl in F.
+  replace 0 with (Q2R 0) by apply RMicromega.Q2R_0. apply Qlt_Rlt.
+  apply Qnot_le_lt. intros C. apply Qle_bool_iff in C. rewrite C in F. discriminate.
 Qed.
